@@ -5,7 +5,7 @@ import os
 import sys
 
 from .. import cell, scen, world
-from ..explore import product
+from ..explore import faults, product
 
 PID = 'C08'
 LEVEL = 'exploration'
@@ -32,6 +32,26 @@ def cases(tier):
     out += [{'st': s, 'cmd': 'put', 'vols': 'home-prefix', 'uid': u} for u in (0, 1000) for s in STATES if s != 'nonsticky-uidlink']
     # the volume list comes from TRASH_VOLUMES and spells the volume as LINK/.. (and with doubled / trailing slashes)
     out += [{'st': 'sticky', 'cmd': cmd, 'vols': 'env-' + sp, 'uid': u} for u in (0, 1000) for sp in ('dotdot', 'slashes') for cmd in ('list', 'empty', 'empty0', 'rm-star')]
+    return out
+
+
+FAULT_CMDS = {'quick': ['put', 'list', 'restore', 'empty', 'rm-star'],
+              'thorough': ['put', 'list', 'restore', 'empty', 'empty0', 'rm-star', 'rm-exact', 'list-size', 'list-files', 'list-all-users', 'empty-all-users']}
+
+
+def fault_stage(tier, cases_, outs):
+    """"never used" must not depend on the file system being well-behaved: for every insecure state x command (one volume),
+    every operation of the fault-free trace answers once with every errno it can return; only the two clauses that have a
+    verdict after an error are judged - the subtree is unchanged, and none of its entries is shown"""
+    cmds = FAULT_CMDS['thorough' if tier == 'thorough' else 'quick']
+    out = []
+    for c, o in zip(cases_, outs):
+        if c['vols'] == 'v1' and c['st'] not in ('sticky', 'absent') and c['cmd'] in cmds and o.get('ops') and (tier == 'thorough' or c['uid'] == 0):
+            for f in faults.single_faults(o['ops']):
+                if f['errno'] in ('ENOENT', 'ENOTDIR'):
+                    continue        # "it is not there" is an answer about the world, not a failure to find out: indistinguishable from .Trash having been
+                                    # removed by somebody else at that instant, and then the state column of this case no longer describes the world
+                out.append(dict({k: c[k] for k in ('st', 'cmd', 'vols', 'uid')}, faults=[f]))
     return out
 
 
@@ -172,10 +192,42 @@ def run_case(c):
         return run_put_then_insecure(c, W, uid, td)
     with cell.Sandbox(W.spec()) as sb:
         before = sb.snapshot()
-        r = sb.run(argv, stdin=stdin, cwd='/mnt/v1/w', now='2024-06-06T06:06:06')
+        flts = c.get('faults') or []
+        r = sb.run(argv, stdin=stdin, cwd='/mnt/v1/w', now='2024-06-06T06:06:06', plan={'faults': flts} if flts else None)
         after = sb.snapshot()
     secure = st == 'sticky'
     detail = {'argv': argv, 'exit': r.exit, 'out': r.out[-400:], 'err': r.err[-400:]}
+    if flts:
+        return judge_faulted(c, r, before, after, detail, flts)
+    res = judge(c, r, before, after, detail, uid, alt, st, td, phys, OTHER, cmd, secure)
+    if c['vols'] == 'v1' and isinstance(res, dict):
+        res['ops'] = faults.ops_of(r.trace)
+    return res
+
+
+def judge_faulted(c, r, before, after, detail, flts):
+    st, cmd = c['st'], c['cmd']
+    f = flts[0]
+    delivered = any(t[0] == f['at'] and t[4] == f['errno'] for t in r.trace)
+    where = '/mnt/v1/.real' if st in ('symlink-sticky', 'symlink-nonsticky') else ('/mnt/v1/.store' if st == 'nonsticky-uidlink' else '/mnt/v1/.Trash')
+    sub_b, sub_a = world.under(before, where), world.under(after, where)
+    if st == 'nonsticky-uidlink' and world.under(before, '/mnt/v1/.Trash') != world.under(after, '/mnt/v1/.Trash'):
+        sub_a = dict(sub_a, **{'(.Trash itself)': ('changed',)})
+    link_same = before.get('/mnt/v1/.Trash') == after.get('/mnt/v1/.Trash') or before.get('/mnt/v1/.Trash', ('x',))[0] == 'd'
+    detail = dict(detail, faults=flts)
+    dims = 'st=%s|cmd=%s|%s:%s' % (st, cmd, f['op'], f['errno'])
+    kind = 'symlink' if 'symlink' in st else st
+    if sub_b != sub_a or not link_same:
+        changed = sorted(k for k in set(sub_b) | set(sub_a) if sub_b.get(k) != sub_a.get(k))
+        return {'verdict': 'viol', 'sig': 'C08|insecure-top-modified|cmd=%s|st=%s|after-%s-%s' % (cmd, kind, f['op'], f['errno']), 'klass': 'insecure-modified-under-fault',
+                'nontrivial': delivered and ('mod|' + dims), 'detail': dict(detail, changed=changed[:8]), 'delivered': delivered}
+    if ('one-v1' in r.out or 'two-v1' in r.out) and cmd.startswith(('list', 'restore')):
+        return {'verdict': 'viol', 'sig': 'C08|insecure-top-shown|cmd=%s|st=%s|after-%s-%s' % (cmd, kind, f['op'], f['errno']), 'klass': 'insecure-shown-under-fault',
+                'nontrivial': delivered and ('shown|' + dims), 'detail': detail, 'delivered': delivered}
+    return {'verdict': 'ok', 'klass': 'insecure:ignored-under-fault', 'nontrivial': delivered and ('ignored|' + dims), 'detail': detail, 'delivered': delivered}
+
+
+def judge(c, r, before, after, detail, uid, alt, st, td, phys, OTHER, cmd, secure):
     if cmd in ('restore', 'restore-empty-td') and ('myalt-x1' not in r.out or (c['vols'] == 'v1+v2' and 'one-v2' not in r.out)):
         return {'verdict': 'viol', 'sig': 'C08|restore-does-not-offer-entries-of-usable-trash-dirs|st=%s' % st, 'klass': 'usable-not-offered',
                 'detail': {'out': r.out[-400:], 'err': r.err[-300:]}}
